@@ -32,21 +32,23 @@ Fixpoint binsearch_Q (fuel : nat) (f : Q -> Q) (lb ub target tol : Q) : option Q
 
 Definition bs_fuel : nat := 200.
 
-(* value of _get_init_cap(battery_cap).  FVinf = float +inf (closed form divided by 0.0). *)
-Inductive fitval := FV (init : Q) | FVinf.
+(* value of _get_init_cap(battery_cap).  FVinf = float +inf (closed form divided by 0.0);
+   FVrec = binsearch did not stop within bs_fuel halvings (Python: RecursionError — happens only
+   for malformed requests, e.g. a negative energy; excluded for valid ones by C15_fit_bisect) *)
+Inductive fitval := FV (init : Q) | FVinf | FVrec.
 
 (* the binsearch call of _get_init_cap (arguments are generated expressions) *)
-Definition run_bs_Q (delta m n ts : Q) : Q :=
-  match binsearch_Q bs_fuel (Fit_delta_from m n ts) (Fit_bs_lb m n) Fit_bs_ub
-                    (Fit_bs_target delta) Fit_bs_tol with
-  | Some x => x
-  | None => 0          (* RecursionError; excluded by C15_fit_bisect for the R twin *)
-  end.
+Definition run_bs_Q (delta m n ts : Q) : option Q :=
+  binsearch_Q bs_fuel (Fit_delta_from m n ts) (Fit_bs_lb m n) Fit_bs_ub (Fit_bs_target delta) Fit_bs_tol.
+
+Definition of_bs_Q (o : option Q) (k : Q -> Q) : fitval :=
+  match o with Some x => FV (k x) | None => FVrec end.
 
 (* _get_init_cap(cap): the generated function takes the results of its two nested helpers as
    arguments (d0 = delta_soc_from_init_soc(0), bs = binsearch(...)).  Python only runs binsearch
    when control reaches it; here it is run only when the generated function's value depends on it
-   (vm_compute is strict) — Proofs/Convert.v (get_init_cap_Q_spec) shows this is the same value. *)
+   (vm_compute is strict; a binsearch that does not terminate must not matter when Python never
+   calls it). *)
 Definition get_init_cap_Q (E n V T cap : Q) : fitval :=
   let delta := Qred (Fit_delta_soc E cap) in
   let m := Qred (Fit_max_dsoc T V cap) in
@@ -56,12 +58,12 @@ Definition get_init_cap_Q (E n V T cap : Q) : fitval :=
     (* IEEE: delta/0.0 = +inf (delta>0), nan (delta=0), -inf (delta<0); `nan >= ts` and
        `-inf >= ts` are False, so the part after the closed-form test runs *)
     if Qltb 0 delta then FVinf
-    else FV (if Qltb d0 delta then -(1) else run_bs_Q delta m n ts * cap)
+    else if Qltb d0 delta then FV (-(1)) else of_bs_Q (run_bs_Q delta m n ts) (fun bs => bs * cap)
   else
     let r := fun bs => Fit_get_init_cap T E n V cap bs d0 in
-    if Qeqb (r 0) (r 1) then FV (r 0) else FV (r (run_bs_Q delta m n ts)).
+    if Qeqb (r 0) (r 1) then FV (r 0) else of_bs_Q (run_bs_Q delta m n ts) r.
 
-Inductive fitres := FitOk (cap init : Q) | FitInf (cap : Q) | FitNone.
+Inductive fitres := FitOk (cap init : Q) | FitInf (cap : Q) | FitNone | FitRec.
 
 Fixpoint ladder_Q (caps : list Q) (E n V T : Q) : fitres :=
   match caps with
@@ -70,6 +72,7 @@ Fixpoint ladder_Q (caps : list Q) (E n V T : Q) : fitres :=
       if Fit_skip_cap cap E then ladder_Q rest E n V T
       else match get_init_cap_Q E n V T cap with
            | FVinf => FitInf cap                    (* inf >= 0 *)
+           | FVrec => FitRec
            | FV init => if Fit_accept_init init then FitOk cap init else ladder_Q rest E n V T
            end
   end.
@@ -86,6 +89,7 @@ Inductive bparams :=
 
 Definition E_INIT := "ValueError:Initial Charge cannot be greater than capacity.".
 Definition E_NOFIT := "ValueError:No feasible battery size found.".
+Definition E_REC := "RecursionError".
 Definition E_VSTACK := "ValueError:need at least one array to concatenate".
 
 (* (cap, init) handed to the battery constructor, then Battery.__init__'s guard *)
@@ -98,6 +102,7 @@ Definition size_battery (bp : bparams) (dflt : Q * Q) (energy : Q) (stay : Z) (V
       match batt_cap_fn_Q energy (inject_Z stay) V T with
       | FitNone => Err E_NOFIT
       | FitInf _ => Err E_INIT
+      | FitRec => Err E_REC
       | FitOk cap init => if Battery_init_bad cap init then Err E_INIT else Ok (cap, init)
       end
   end.
@@ -240,7 +245,8 @@ Definition check_c15_stoch (c : c15stoch) : bool :=
           (i_sevs c).
 
 (* stream 3: batt_cap_fn(E, n, V, T), then the fitted real Linear2StageBattery charged at 32 A
-   for n periods.  i_fit: 0 = (cap, init) returned, 1 = (cap, +inf), 2 = ValueError *)
+   for n periods.  i_fit: 0 = (cap, init) returned, 1 = (cap, +inf), 2 = ValueError, 3 = RecursionError,
+   4 = (cap, init) returned but the Battery constructor refuses it (init > cap; negative requests only) *)
 Record c15fit := {
   f_E : Q; f_n : nat; f_V : Q; f_T : Q;
   i_fit : Z; i_cap : Q; i_init : Q; i_final : Q   (* final stored charge after n periods *)
@@ -248,8 +254,12 @@ Record c15fit := {
 Definition check_c15_fit (c : c15fit) : bool :=
   match batt_cap_fn_Q (f_E c) (inject_Z (Z.of_nat (f_n c))) (f_V c) (f_T c) with
   | FitNone => Z.eqb (i_fit c) 2
+  | FitRec => Z.eqb (i_fit c) 3
   | FitInf cap => Z.eqb (i_fit c) 1 && Qeqb cap (i_cap c)
   | FitOk cap init =>
+      if Battery_init_bad cap init      (* Linear2StageBattery(cap, init, ...) raises ValueError *)
+      then Z.eqb (i_fit c) 4 && Qeqb cap (i_cap c) && Qclose init (i_init c)
+      else
       Z.eqb (i_fit c) 0 && Qeqb cap (i_cap c) && Qclose init (i_init c)
       && Qclose (l2_run_Q (f_n c) cap (fit_max_power (f_V c)) Fit_transition_soc Fit_max_rate
                           (f_V c) (f_T c) init) (i_final c)
